@@ -81,7 +81,7 @@ void parsec_vector_two_dim_cyclic_init( parsec_vector_two_dim_cyclic_t * dc,
             dc->super.nb_local_tiles = dc->super.lmt / lcmpq;
 
             /* Compute rank on the diagonal */
-            while ( drank % Q != 0 ) {
+            while ( drank % P != 0 ) {
                 drank += Q;
             }
             drank = drank + dc->grid.rrank;
